@@ -182,8 +182,8 @@ class Check:
                           "max_len": 24, "io_on": True})
         for s in range(3 if q else 12):  # output fully on while EVERY action of the map is taken once (whatever ends up in a history item gets written)
             sd = seed * 1000 + 950 + s
-            specs.append({"name": f"io-on-sweep-{sd}", "src": ["gen", {"seed": sd}], "policy": "sweep", "seed": sd, "episodes": 2, "steps": 240,
-                          "max_len": 230, "io_on": True})
+            specs.append({"name": f"io-on-sweep-{sd}", "src": ["gen", {"seed": sd, "knobs": {"max_actions": 1000}}], "policy": "sweep", "seed": sd, "episodes": 2,
+                          "steps": 420, "max_len": 410, "io_on": True})
         for i in range(6 if q else 24):  # shipped UC2 (scripted agents that succeed) + a defender that can do everything, colliding with them
             specs.append({"name": f"uc2-fullmap-{i}", "src": ["fullmap", {"file": "data_manipulation.yaml", "seed": seed * 10 + i}],
                           "policy": ["collide", "collide", "disrupt", "power", "nic", "adversarial"][i % 6], "seed": seed * 100 + 40 + i, "episodes": 2,
